@@ -109,6 +109,7 @@ class _PP:
 
 _q = {}
 _tmp = None
+_prev = None
 
 
 def run_case(case):
@@ -123,6 +124,13 @@ def run_case(case):
     v = []
     model = train_naive_bayes(X, y)
     ref = nbref.RefNB(X, y)
+    # models are independent objects: training this one must not disturb the one trained for the previous case
+    global _prev
+    if _prev is not None:
+        pm, pq, pexp, pX, py = _prev
+        again = pm.predict_log_proba([pq])[0]
+        if max(abs(again[0] - pexp[0]), abs(again[1] - pexp[1])) > TOL:
+            v.append(viol({"kind": "training_disturbs_other_model"}, "model trained on X={} y={} predicted {} for {}; after training another model (X={} y={}) it predicts {}".format(pX, py, pexp, pq, X, y, again), pexp, again))
     if tier not in _q:
         _q[tier] = _queries(tier)
     scorer = NaiveBayesScorer(model)
@@ -180,6 +188,7 @@ def run_case(case):
             if a != b:
                 v.append(viol({"kind": "reload_changes_score"}, "trace {}: {} before, {} after save+reload".format(q, a, b), a, b))
                 break
+    _prev = (model, _q[tier][len(_q[tier]) // 3], model.predict_log_proba([_q[tier][len(_q[tier]) // 3]])[0], X, y) if not v else None
     return {"o": "small:" + ("ok" if not v else v[0]["sig"]["kind"]), "nt": nontrivial, "v": v[:3], "st": {"predictions": len(_q[tier])}}
 
 
@@ -198,7 +207,7 @@ def _shipped(case):
     voc = model.transformer.vocabulary
     ll = model.estimator.log_likelihood
     pr = model.estimator.class_prior
-    norm = re.sub("#[a-zA-Z0-9_-]+", "", m._preprocess_string(text)).strip()
+    norm = re.sub(" {2,}", " ", re.sub("#[a-zA-Z0-9_-]+", "", m._preprocess_string(text)).strip())
     v = []
     n = 0
     try:
